@@ -39,39 +39,62 @@ Proof.
 Qed.
 
 (* ================================================================== tails *)
+(* the integers the regenerated converter assigns to the three labels *)
+Definition label_val (l : label) : Z := match convert_version_part (label_name l) with Ok z => z | Raise _ => 0 end.
+
+(* all that the ordering needs from the extracted Enum table: the labels are accepted, their values are negative and
+   increase from alpha to rc *)
+Lemma cvp_label l : convert_version_part (label_name l) = Ok (label_val l).
+Proof. destruct l; vm_compute; reflexivity. Qed.
+Lemma label_vals_ordered : label_val Alpha < label_val Beta /\ label_val Beta < label_val Rc /\ label_val Rc < 0.
+Proof. repeat split; vm_compute; reflexivity. Qed.
+
 Lemma vals_nonneg v : wf v -> Forall (fun x => 0 <= x) (vals v).
 Proof.
   intros (_ & H & _). unfold vals. apply Forall_map. eapply Forall_impl; [|exact H].
   intros s Hs. apply int_of_digits_nonneg. exact Hs.
 Qed.
 
+Ltac cmp_facts :=
+  destruct label_vals_ordered as (Hab & Hbc & Hc0);
+  generalize dependent (label_val Alpha); intros xa; generalize dependent (label_val Beta); intros xb;
+  generalize dependent (label_val Rc); intros xc; intros;
+  assert ((xa ?= xa) = Eq /\ (xb ?= xb) = Eq /\ (xc ?= xc) = Eq) as (Eaa & Ebb & Ecc) by (rewrite !Z.compare_refl; auto);
+  assert ((xa ?= xb) = Lt /\ (xa ?= xc) = Lt /\ (xb ?= xc) = Lt) as (Eab & Eac & Ebc) by (repeat split; apply Z.compare_lt_iff; lia);
+  assert ((xb ?= xa) = Gt /\ (xc ?= xa) = Gt /\ (xc ?= xb) = Gt) as (Eba & Eca & Ecb) by (repeat split; apply Z.compare_gt_iff; lia);
+  assert ((0 ?= xa) = Gt /\ (0 ?= xb) = Gt /\ (0 ?= xc) = Gt) as (E0a & E0b & E0c) by (repeat split; apply Z.compare_gt_iff; lia);
+  assert ((xa ?= 0) = Lt /\ (xb ?= 0) = Lt /\ (xc ?= 0) = Lt) as (Ea0 & Eb0 & Ec0) by (repeat split; apply Z.compare_lt_iff; lia).
+
 (* comparing the tails = comparing rank, then pre-release number *)
 Lemma tail_cmp v w :
-  list_cmp (tail v) (tail w) = match rank v ?= rank w with Eq => prenum v ?= prenum w | c => c end.
+  list_cmp (tail label_val v) (tail label_val w) = match rank v ?= rank w with Eq => prenum v ?= prenum w | c => c end.
 Proof.
-  unfold tail, rank, prenum, release_rank.
+  unfold tail, rank, prenum, release_rank. cmp_facts.
   destruct (pre v) as [[[| |] [n|]]|], (pre w) as [[[| |] [n'|]]|]; cbn [list_cmp zeros_vs label_rank];
+    rewrite ?Eaa, ?Ebb, ?Ecc, ?Eab, ?Eac, ?Ebc, ?Eba, ?Eca, ?Ecb, ?E0a, ?E0b, ?E0c, ?Ea0, ?Eb0, ?Ec0;
     repeat match goal with |- context [int_of_digits ?s] => generalize (int_of_digits s); intro end;
     repeat match goal with
            | |- context [Z.compare ?a ?b] => first [is_var a | is_var b]; destruct (Z.compare a b)
            end; reflexivity.
 Qed.
 
-Lemma zeros_vs_tail w : zeros_vs (tail w) = match release_rank ?= rank w with Eq => 0 ?= prenum w | c => c end.
+Lemma zeros_vs_tail w : zeros_vs (tail label_val w) = match release_rank ?= rank w with Eq => 0 ?= prenum w | c => c end.
 Proof.
-  unfold tail, rank, prenum, release_rank. destruct (pre w) as [[[| |] [n|]]|]; reflexivity.
+  unfold tail, rank, prenum, release_rank. cmp_facts.
+  destruct (pre w) as [[[| |] [n|]]|]; cbn [zeros_vs label_rank]; rewrite ?E0a, ?E0b, ?E0c; reflexivity.
 Qed.
 
-Lemma tail_head_neg v : is_pre v = true -> exists r t, tail v = r :: t /\ r < 0.
+Lemma tail_head_neg v : is_pre v = true -> exists r t, tail label_val v = r :: t /\ r < 0.
 Proof.
+  destruct label_vals_ordered as (Hab & Hbc & Hc0).
   unfold is_pre, tail. destruct (pre v) as [[l [n|]]|]; [| |discriminate]; intros _; eexists; eexists; (split; [reflexivity|]);
-    destruct l; cbn; lia.
+    destruct l; lia.
 Qed.
 
 (* ================================================================== version_order on integer lists *)
 Lemma order_shorter v w :
   wf v -> wf w -> (length (nums v) < length (nums w))%nat -> (is_pre v && is_Eq (list_cmp (vals v) (vals w))) = false ->
-  semver_cmp v w = list_cmp (ints v) (ints w).
+  semver_cmp v w = list_cmp (ints label_val v) (ints label_val w).
 Proof.
   intros Hv Hw Hlen Hf9. unfold semver_cmp, ints.
   pose proof (vals_nonneg w Hw) as Hnn.
@@ -95,10 +118,10 @@ Proof.
     cbn [zeros_vs] in *. destruct (Z.compare_spec 0 y) as [E|E|E]; [|reflexivity|lia].
     destruct (zeros_vs_nonneg b2' Hb2') as [Z0|Z0]; rewrite Z0 in *; [discriminate|reflexivity].
   - (* the shorter one is a release *)
-    assert (tail v = []) as -> by (unfold is_pre, tail in *; destruct (pre v) as [[l [n|]]|]; try discriminate; reflexivity).
+    assert (tail label_val v = []) as -> by (unfold is_pre, tail in *; destruct (pre v) as [[l [n|]]|]; try discriminate; reflexivity).
     assert (rank v = release_rank) as -> by (unfold is_pre, rank in *; destruct (pre v) as [[l n]|]; try discriminate; reflexivity).
     assert (prenum v = 0) as -> by (unfold is_pre, prenum in *; destruct (pre v) as [[l n]|]; try discriminate; reflexivity).
-    change (list_cmp [] (b2 ++ tail w)) with (zeros_vs (b2 ++ tail w)). rewrite zeros_vs_app, zeros_vs_tail.
+    change (list_cmp [] (b2 ++ tail label_val w)) with (zeros_vs (b2 ++ tail label_val w)). rewrite zeros_vs_app, zeros_vs_tail.
     reflexivity.
 Qed.
 
@@ -112,14 +135,14 @@ Qed.
 Lemma is_Eq_opp c : is_Eq (CompOpp c) = is_Eq c.
 Proof. destruct c; reflexivity. Qed.
 
-Lemma version_order_ints v w : wf v -> wf w -> f9_family v w = false -> semver_cmp v w = list_cmp (ints v) (ints w).
+Lemma version_order_ints v w : wf v -> wf w -> f9_family v w = false -> semver_cmp v w = list_cmp (ints label_val v) (ints label_val w).
 Proof.
   intros Hv Hw. unfold f9_family, shorter_is_pre.
   destruct (length (nums v) <? length (nums w))%nat eqn:E1.
   - apply Nat.ltb_lt in E1. apply order_shorter; assumption.
   - destruct (length (nums w) <? length (nums v))%nat eqn:E2.
     + apply Nat.ltb_lt in E2. intros H. rewrite (list_cmp_antisym (vals w) (vals v)), is_Eq_opp in H.
-      rewrite (semver_antisym w v), (list_cmp_antisym (ints w) (ints v)). f_equal. apply order_shorter; assumption.
+      rewrite (semver_antisym w v), (list_cmp_antisym (ints label_val w) (ints label_val v)). f_equal. apply order_shorter; assumption.
     + intros _. apply Nat.ltb_ge in E1, E2. unfold semver_cmp, ints.
       rewrite list_cmp_app by (unfold vals; rewrite !map_length; lia).
       destruct (list_cmp (vals v) (vals w)); try reflexivity. symmetry. apply tail_cmp.
@@ -188,10 +211,6 @@ Qed.
 Lemma cvp_numeric p : numeric p -> convert_version_part p = Ok (int_of_digits p).
 Proof. unfold numeric, convert_version_part. intros H. rewrite H, (int_of_str_digits _ H). reflexivity. Qed.
 
-(* the extracted Enum table assigns alpha / beta / rc the values rank - 3 = -3 / -2 / -1 *)
-Lemma cvp_label l : convert_version_part (label_name l) = Ok (label_rank l - 3).
-Proof. destruct l; vm_compute; reflexivity. Qed.
-
 Lemma table_labels : map fst prerelease_table = [label_name Alpha; label_name Beta; label_name Rc].
 Proof. reflexivity. Qed.
 
@@ -201,12 +220,12 @@ Proof.
   apply numeric_clean, H.
 Qed.
 
-Lemma mapM_pre_parts v : wf v -> mapM convert_version_part (pre_parts v) = Ok (tail v).
+Lemma mapM_pre_parts v : wf v -> mapM convert_version_part (pre_parts v) = Ok (tail label_val v).
 Proof.
   intros (_ & _ & H). unfold pre_parts, tail. destruct (pre v) as [[l [n|]]|]; cbn [mapM]; rewrite ?cvp_label, ?(cvp_numeric _ H); reflexivity.
 Qed.
 
-Lemma convert_print v : wf v -> from_obj (print v) = Ok (ints v).
+Lemma convert_print v : wf v -> from_obj (print v) = Ok (ints label_val v).
 Proof.
   intros Hv. pose proof Hv as (Hne & Hnum & _). unfold print.
   rewrite from_obj_parts; [|exact Hne|eapply Forall_impl; [|exact Hnum]; apply numeric_clean|apply pre_parts_clean, Hv].
@@ -218,7 +237,7 @@ Lemma version_order v w :
   wf v -> wf w -> f9_family v w = false ->
   exists a b, from_obj (print v) = Ok a /\ from_obj (print w) = Ok b /\ semver_cmp v w = list_cmp a b.
 Proof.
-  intros Hv Hw H. exists (ints v), (ints w). split; [apply convert_print, Hv|]. split; [apply convert_print, Hw|].
+  intros Hv Hw H. exists (ints label_val v), (ints label_val w). split; [apply convert_print, Hv|]. split; [apply convert_print, Hw|].
   apply version_order_ints; assumption.
 Qed.
 
@@ -232,7 +251,7 @@ Lemma mixed_arity_refuted :
   exists v w a b, wf v /\ wf w /\ f9_family v w = true /\ from_obj (print v) = Ok a /\ from_obj (print w) = Ok b
                   /\ semver_cmp v w = Eq /\ list_cmp a b = Lt.
 Proof.
-  exists f9_v, f9_w, [0; -3], [0; 0; -3]. destruct wf_dec_example as [A B].
+  exists f9_v, f9_w, (ints label_val f9_v), (ints label_val f9_w). destruct wf_dec_example as [A B].
   split; [exact A|]. split; [exact B|]. repeat split; vm_compute; reflexivity.
 Qed.
 
